@@ -240,6 +240,9 @@ def finish(pid, prop, tier, seed, repo, results, canaries, wall):
           '%d violations, %d known, %.1fs wall, solver %.1fs' % (pid, tier, len(main_r), paths, tot('obligations'), tot('syntactic'),
                                                              tot('by_solver'), undecided, tot('validated'), len(violations), len(known), wall,
                                                              sum(r.get('solver_s', 0) for r in main_r)))
+    if os.environ.get('SX_SLOWEST'):
+        for r in sorted(main_r, key=lambda r: -r.get('wall_s', 0))[:8]:
+            print('  slow: %.1fs paths=%d %s' % (r.get('wall_s', 0), r['paths'], json.dumps(r['cfg'])))
     for l in lines:
         print(l)
     if violations:
